@@ -208,6 +208,75 @@ pub fn run(a: &Args) {
         out.rec(&json!({"kind":"sched","id":format!("sc{s}-t{threads}"),"what":"backup","collision":s % 2 == 0 && collide.is_some(),"runs":runs}));
         out.rec(&json!({"kind":"sched","id":format!("sc{s}-t{threads}-prune"),"what":"backup+forget+prune","collision":false,"runs":prunes}));
     }
+    // a wide directory: more than a thousand differing sub-directories on one level (tree walks of check / prune / copy
+    // queue one request per sub-tree), once per process
+    if a.num("wide", 1) > 0 {
+        let mut e = Vec::new();
+        for i in 0..1300u32 {
+            e.push(Entry::dir(&format!("w/d{i:04}")));
+            e.push(Entry::file(&format!("w/d{i:04}/f"), i.to_le_bytes().to_vec()));
+        }
+        e.push(Entry::dir("w"));
+        let src = MemSource::new(e);
+        let store = MemStore::new();
+        let key = MasterKey::new();
+        let h0 = store.handle(0);
+        _ = scn::init(&h0, &key, &scn::small_config(64, 100_000)).unwrap();
+        let mut nm = Namer::default();
+        let mut runs = Vec::new();
+        let h = store.handle(1);
+        for (what, k) in [("backup", 0u8), ("check", 1), ("prune", 2), ("copy", 3)] {
+            let (h2, key2, src2) = (h.clone(), key.clone(), src.clone());
+            let res = watchdog(90, move || {
+                scn::guard(|| {
+                    match k {
+                        0 => {
+                            let repo = scn::open(&h2, &key2)?.to_indexed_ids()?;
+                            scn::backup_mem(&repo, &src2, &BackupOptions::default(), scn::snap_at(1000)).map(|s| Some(*s.tree))
+                        }
+                        1 => scn::open(&h2, &key2)?.check(rustic_core::CheckOptions::default()).map(|_| None),
+                        2 => {
+                            let r = scn::open(&h2, &key2)?;
+                            let po = prune_opts(&json!({"keep_delete":0,"max_unused":"0%","max_repack":"unlimited","instant":true}));
+                            let plan = r.prune_plan(&po)?;
+                            r.prune(&po, plan).map(|()| None)
+                        }
+                        _ => {
+                            let dst_store = MemStore::new();
+                            let dh = dst_store.handle(0);
+                            let dkey = MasterKey::new();
+                            _ = scn::init(&dh, &dkey, &scn::small_config(64, 100_000))?;
+                            let srcr = scn::open(&h2, &key2)?.to_indexed()?;
+                            let snaps = srcr.get_all_snapshots()?;
+                            let dst = scn::open(&dh, &dkey)?.to_indexed_ids()?;
+                            srcr.copy(&dst, snaps.iter()).map(|()| None)
+                        }
+                    }
+                })
+            });
+            let label = json!({"pack":100_000,"delay":false,"threads":threads,"wide":what});
+            let r = match res {
+                Err(()) => {
+                    timeouts += 1;
+                    RunResult { outcome: "timeout".into(), tree: String::new(), needs: vec![], orphans: 0, readable: false, clean: false, packs: 0 }
+                }
+                Ok(Outcome::Ok(t)) => {
+                    let mut rr = summarize(&store, &key, &mut nm, t, "ok");
+                    // (only termination and the outcome are judged for the wide scenario)
+                    rr.tree = String::new();
+                    rr.needs = vec![];
+                    rr
+                }
+                Ok(o) => summarize(&store, &key, &mut nm, None, o.class()),
+            };
+            let hung = r.outcome == "timeout";
+            runs.push(rr_json(&r, &label));
+            if hung {
+                break;
+            }
+        }
+        out.rec(&json!({"kind":"sched","id":format!("wide-t{threads}"),"what":"wide directory: backup, check, prune, copy","collision":false,"wide":true,"runs":runs}));
+    }
     let ev = out.finish();
     println!("{}", json!({"records": ev, "timeouts": timeouts}));
     let _unused: BTreeMap<u8, u8> = BTreeMap::new();
